@@ -140,9 +140,21 @@ def _parse_sympy_expr(expression):
     return parsed
 
 
-def _sympy_expr_to_ast(expression) -> ast.AST:
+def _sympy_expr_to_ast(expression, integer_symbols=frozenset()) -> ast.AST:
     """Python code for a sympy expression, if it is arithmetic over the program's variables."""
-    root = core.parse(str(expression))
+    numerator, denominator = sympy.fraction(sympy.together(expression))
+    if denominator == 1:
+        code = str(expression)
+    elif denominator.is_Integer and numerator.free_symbols and (
+        expression.free_symbols <= set(integer_symbols)
+    ):
+        # A sum of integers is an integer: n * (n - 1) / 2 would be a float. The closed form of a
+        # sum over integer bounds is a whole number, so the division is exact.
+        code = f"({numerator}) // {denominator}"
+    else:
+        raise ValueError(f"{expression} is not a whole number for all values of its variables")
+
+    root = core.parse(code)
     symbol_names = {symbol.name for symbol in expression.free_symbols}
     arithmetic = (ast.Module, ast.Expr, ast.BinOp, ast.UnaryOp, ast.Constant)
     arithmetic += (ast.operator, ast.unaryop, ast.expr_context)
@@ -244,12 +256,13 @@ def _simplify_math(f: Callable) -> ast.AST:
 
         # TODO substitute constant calls, attributes and other stuff with variables
 
-        return _sympy_expr_to_ast(sympy.simplify(_parse_sympy_expr(source)))
+        simplified = sympy.simplify(_parse_sympy_expr(source))
+        # The variables are arguments of range(), or there is nothing to divide by
+        return _sympy_expr_to_ast(simplified, integer_symbols=simplified.free_symbols)
 
     return wrapper
 
 
-@_simplify_math
 def _sum_int_squares_to(value: ast.AST) -> ast.AST:
     return ast.BinOp(
         left=ast.BinOp(
@@ -291,6 +304,7 @@ def _sum_constants(values: Sequence[ast.AST]) -> ast.AST:
 def _integrate_over(expr: ast.AST, generators: Sequence[ast.comprehension]) -> ast.AST:
     source = core.unparse(expr).strip()
     sym_expr = _parse_sympy_expr(source)
+    integer_symbols = set()  # Arguments of range()
     # The bounds of a generator may mention the targets of the generators before it, so the
     # innermost generator is summed over first.
     for comprehension in reversed(generators):
@@ -300,6 +314,7 @@ def _integrate_over(expr: ast.AST, generators: Sequence[ast.comprehension]) -> a
             lower = _parse_sympy_expr(core.unparse(start).strip())
             upper = _parse_sympy_expr(core.unparse(end).strip())
             step = _parse_sympy_expr(core.unparse(step).strip())
+            integer_symbols |= lower.free_symbols | upper.free_symbols | step.free_symbols
 
             if step == 1:
                 if lower.is_Integer and upper.is_Integer and upper < lower:
@@ -334,7 +349,7 @@ def _integrate_over(expr: ast.AST, generators: Sequence[ast.comprehension]) -> a
     sym_expr = sym_expr.doit()
     sym_expr = sympy.simplify(sym_expr)
 
-    return _sympy_expr_to_ast(sym_expr)
+    return _sympy_expr_to_ast(sym_expr, integer_symbols=integer_symbols)
 
 
 def _as_operand(replacement: ast.AST, node: ast.AST, root: ast.AST) -> str:
